@@ -53,11 +53,12 @@ CLAUSE TABLE (statement of C19 -> what decides it -> event that carries it)
                                              start class; flat classes verified on the trace (TReset fs, InitEval V = buf[1]);
                                              NMTie!NoStall, NoFalseStop (exact 2-D model, both acceptance / stop rules), family replayed (sc = 10) ....... Reset, Eval, Quad
 """
-import os, shutil, threading, copy
+import json, os, shutil, threading, copy
 from concurrent.futures import ThreadPoolExecutor
 from vf import build, tlc, trace
 from vf import run as hrun
 from vf.core import InfraError
+from checks.deferred import Deferred, crash_signal
 
 LEVEL = "exploration"
 READY = True
@@ -111,6 +112,28 @@ class _Locked:
 
 def dec_name(e):
     return "1e%d" % e
+
+
+def _died(ctx, h, base, name, case, events):
+    """the harness of one part ended with rc != 0 without a sanitizer report (the library runs inside the harness process).  A crash signal is reported like the
+    sanitizer reports of this module: attributed to the part and to the input that follows / produces the last recorded event (the inputs are generated
+    deterministically, the replay runs the part again); a timeout is deferred (a hang cannot be told from machine load); anything else is the machinery's"""
+    sg = crash_signal(h.rc)
+    last = events[-1] if events else None
+    if sg:
+        ctx.violation("%s:crash:%s" % (base, sg), "%s: the harness process died (%s) inside a library call, on the input at / after the last recorded event %s:\n%s" % (
+            name, sg, json.dumps(last)[:400], h.err[-600:]), dict(case, after=last))
+    elif h.timed_out and getattr(ctx, "_deferred", None) is not None:
+        ctx._deferred.add("%s timed out after event %s" % (name, json.dumps(last)[:200]))
+    else:
+        raise InfraError("%s failed rc=%s: %s" % (name, h.rc, h.err[-800:]))
+
+
+def _vac(ctx, died, msg):
+    """a vacuity finding: immediate when the harness ran to its end; when it died early (reported / deferred by _died) the finding is a consequence: deferred"""
+    if not died or getattr(ctx, "_deferred", None) is None:
+        raise InfraError(msg)
+    ctx._deferred.add(msg)
 
 
 # ---------------------------------------------------------------- spline: model + replay
@@ -212,15 +235,19 @@ def spline_replay(ctx, recs, exe, rd):
         jobs.append(["replay", cf, os.path.join(rd, "rp%d.ndjson" % k)])
     res = hrun.run_many(exe, jobs, timeout=1500, workers=PAR)
     events = []
+    died = False
     for j, h in zip(jobs, res):
+        ev = hrun.read_ndjson(j[2])
         if h.rc != 0:
+            died = True
             if h.san:
                 ctx.violation("SPLINE:replay:%s" % h.san, "sanitizer report while replaying knot sets:\n%s" % h.err[:1500], dict(kind="spline_replay"))
             else:
-                raise InfraError("c19_spline replay failed rc=%s: %s" % (h.rc, h.err[-800:]))
-        events += hrun.read_ndjson(j[2])
+                _died(ctx, h, "SPLINE:replay", "c19_spline replay", dict(kind="spline_replay"), ev)
+        events += ev
     if not events:
-        raise InfraError("c19_spline replay produced no events")
+        _vac(ctx, died, "c19_spline replay produced no events")
+        return
     # group by scale decade: one TLC validation per decade (a rejected decade is re-validated alone)
     bydec, cur = {}, None
     wrong_dec = set()
@@ -252,10 +279,12 @@ def spline_ledger(ctx, exe, rd, count):
         if h.san:
             ctx.violation("SPLINE:ledger:%s" % h.san, "sanitizer report in the spline ledger run:\n%s" % h.err[:1500], dict(kind="spline_ledger", count=count))
         else:
-            raise InfraError("c19_spline ledger failed rc=%s: %s" % (h.rc, h.err[-800:]))
+            _died(ctx, h, "SPLINE:ledger", "c19_spline ledger", dict(kind="spline_ledger", count=count), hrun.read_ndjson(out))
     events = hrun.read_ndjson(out)
+    died = h.rc != 0
     if not events:
-        raise InfraError("c19_spline ledger produced no events")
+        _vac(ctx, died, "c19_spline ledger produced no events")
+        return
     for ev in events:
         if ev["e"] == "Ledger":
             ctx.case(("ledger", ev["nk"], ev["dec"], ev["irr"]), True)
@@ -266,12 +295,12 @@ def spline_ledger(ctx, exe, rd, count):
             ctx.case(("interpolate", ev["nk"], ev["dec"], ev["np"]), ev["np"] > 2)
             ctx.cls("K7:interpolate-out=sized-3x5")
     if not any(ev["e"] == "Interp" for ev in events):
-        raise InfraError("c19_spline ledger recorded no interpolate() call")
+        _vac(ctx, died, "c19_spline ledger recorded no interpolate() call")
     ctx.sample(events[0], 5)
     ctx.sample(events[len(events) // 2], 6)
     _validate_spline(ctx, events, "trace_spline_ledger", "spline_ledger")
     ctx.traces(sum(1 for ev in events if ev["e"] == "Ledger"))
-    if not ctx.quick:
+    if not ctx.quick and not died:
         # binding self-test: one logged residual multiplied by 1e6 must turn acceptance into rejection
         def corrupt(ev):
             for e in ev:
@@ -351,13 +380,14 @@ def spline_sessions(ctx, exe, rd, nsess, every):
             ctx.violation("SPLINE:sessions:%s" % h.san, "sanitizer report in the spline session run (refits into used tables / outputs):\n%s" % h.err[:1500],
                           dict(kind="spline_sessions", nsess=nsess))
         else:
-            raise InfraError("c19_cls failed rc=%s: %s" % (h.rc, h.err[-800:]))
+            _died(ctx, h, "SPLINE:sessions", "c19_cls", dict(kind="spline_sessions", nsess=nsess, every=every), hrun.read_ndjson(out))
     events = hrun.read_ndjson(out)
+    died = h.rc != 0
     main = [e for e in events if e["e"] in ("Reset", "SFit", "SInt", "SArea")]
     sent = [e for e in events if e["e"] == "Sent"]
     extra = [e for e in events if e["e"] in ("XArea", "Extrap")]
     if not main or not sent or not extra:
-        raise InfraError("c19_cls: a stream is empty (main %d, sentinel %d, extra %d)" % (len(main), len(sent), len(extra)))
+        _vac(ctx, died, "c19_cls: a stream is empty (main %d, sentinel %d, extra %d)" % (len(main), len(sent), len(extra)))
     need = set(["K7:S=%s" % k for k in ("fresh", "shrink", "grow", "same", "presized-larger", "presized-other-width")] +
                ["K7:interpolate-out=%s" % k for k in ("fresh", "shrink", "grow", "same", "cols")] +
                ["K4:mesh=%s" % m for m in MESH] + ["K4:ymag=1e%d" % k for k in (-6, -3, 0, 3, 6)] +
@@ -399,12 +429,13 @@ def spline_sessions(ctx, exe, rd, nsess, every):
         ctx.cls("K9:value-passes-through-MISSING-code")
         ctx.case(("sent", ev["nk"], ev["piece"]), ev["found"] == 1)
     if not any(ev["found"] == 1 for ev in sent):
-        raise InfraError("c19_cls: no query at the MISSING-code level was constructed")
+        _vac(ctx, died, "c19_cls: no query at the MISSING-code level was constructed")
     missing = sorted(need - got)
     if missing:
-        raise InfraError("c19_cls: input classes not emitted: %s" % missing)
-    ctx.sample(next(e for e in main if e["e"] == "SFit" and e["prev"] > e["nk"] - 1), 8)
-    ctx.sample(next(e for e in main if e["e"] == "SFit" and e["sp"] == 3), 9)
+        _vac(ctx, died, "c19_cls: input classes not emitted: %s" % missing)
+    if not died:
+        ctx.sample(next(e for e in main if e["e"] == "SFit" and e["prev"] > e["nk"] - 1), 8)
+        ctx.sample(next(e for e in main if e["e"] == "SFit" and e["sp"] == 3), 9)
 
     def on_reject(ev, idx, block):
         sig, what = _sig_session(ev, block)
@@ -425,7 +456,8 @@ def spline_sessions(ctx, exe, rd, nsess, every):
                       "value 99999999 +- 1e-2, cubic_spline_predict returns the value of another polynomial (relative deviation %s e-12): the result of the piece search is "
                       "recognised by comparing y with the MISSING code") % (ev["nk"], ev["piece"], ev["last"] + 1, ev["err"]), dict(kind="spline_sessions", nsess=nsess, every=every, event=ev))
         return lambda e: e["e"] == "Sent"
-    trace.check_trace(ctx, "TraceSpline", "Trace_Spline.cfg", None, sent, on_sent, drop="event", max_rounds=4, label="trace_spline_sentinel", timeout=900)
+    if sent:
+        trace.check_trace(ctx, "TraceSpline", "Trace_Spline.cfg", None, sent, on_sent, drop="event", max_rounds=4, label="trace_spline_sentinel", timeout=900)
 
     # outside the statement: deviations are EXTRA-FINDINGs
     def on_extra(ev, idx, block):
@@ -439,9 +471,12 @@ def spline_sessions(ctx, exe, rd, nsess, every):
             sig, what = "AREA:intervals:%s" % k, "curve_area(xy, np > 0) / descending abscissae on %d points: %s" % (ev["nk"], {q: ev[q] for q in ("np", "one", "two", "samp", "desc")})
         ctx.extra(sig, what)
         return lambda e: e["e"] == ev["e"] and (e["e"] != "Extrap" or (e["lok"], e["rok"], e["fin"]) == (ev["lok"], ev["rok"], ev["fin"]))
-    trace.check_trace(_NoDrift(ctx), "TraceSpline", "Trace_Spline.cfg", None, extra, on_extra, drop="event", max_rounds=8, label="trace_spline_outside_statement", timeout=900)
+    if extra:
+        trace.check_trace(_NoDrift(ctx), "TraceSpline", "Trace_Spline.cfg", None, extra, on_extra, drop="event", max_rounds=8, label="trace_spline_outside_statement", timeout=900)
     for ev in extra:
         ctx.case(("extra", ev["e"], ev["nk"]), False)
+    if died:
+        return          # (the recorded sessions were judged above; the binding self-tests and the statistics need a complete recording)
 
     # binding self-tests for the new event kinds (small traces; a corrupted field must be rejected)
     first = blocks[0]
@@ -529,11 +564,18 @@ def nm_check(ctx, rd, nfull, nlight):
         if h.san:
             ctx.violation("NM:%s" % h.san, "sanitizer report in NelderMeadSimplex:\n%s" % h.err[:1500], dict(kind="nm", nfull=nfull, nlight=nlight))
         else:
-            raise InfraError("c19_nm failed rc=%s: %s" % (h.rc, h.err[-800:]))
+            ev_ = hrun.read_ndjson(out)
+            run_ = next((e for e in reversed(ev_) if e.get("e") == "Reset"), None)
+            _died(ctx, h, "NM", "c19_nm", dict(kind="nm", nfull=nfull, nlight=nlight, run=run_), ([run_] if run_ else []))
     events = hrun.read_ndjson(out)
+    died = h.rc != 0
     blocks = tlc.split_blocks(events)
+    if died and blocks and blocks[-1][-1].get("e") != "Quad":
+        blocks = blocks[:-1]              # the minimisation that was running when the process ended
+        events = [e for b in blocks for e in b]
     if not blocks or not any(e["e"] == "Eval" for e in events):
-        raise InfraError("c19_nm: no objective evaluations recorded")
+        _vac(ctx, died, "c19_nm: no objective evaluations recorded")
+        return
     got, judged = set(), {}
     for b in blocks:
         r0, q = b[0], b[-1]
@@ -557,7 +599,7 @@ def nm_check(ctx, rd, nfull, nlight):
     need = set(["K1:dim=%d" % d for d in range(2, 7)] + ["K1:dim=%d:callback-trace" % d for d in range(2, 7)] + ["K8:start=%s" % v for v in SCNAME.values()] +
                ["K4:step=1e%d" % k for k in ((-3, -2, -1) if ctx.quick else (-3, -2, -1, 1, 2, 3))] + ["K5:cond=100-exactly", "K8:step=NULL(default)", "K7:result-vector=sized"])
     if nlight >= 72 and (need - got or any(judged.get(sc, 0) == 0 for sc in SCNAME)):
-        raise InfraError("c19_nm: start classes not emitted / not judged: %s %s" % (sorted(need - got), {SCNAME[s]: judged.get(s, 0) for s in SCNAME}))
+        _vac(ctx, died, "c19_nm: start classes not emitted / not judged: %s %s" % (sorted(need - got), {SCNAME[s]: judged.get(s, 0) for s in SCNAME}))
     full = [e for b in blocks if b[0]["full"] for e in b]
     light = [e for b in blocks if not b[0]["full"] for e in b]
     ctx.sample(dict(run=blocks[0][0], first_events=blocks[0][1:6], last_events=blocks[0][-3:]), 6)
@@ -567,9 +609,14 @@ def nm_check(ctx, rd, nfull, nlight):
         ctx.violation(sig, what, dict(kind="nm", nfull=nfull, nlight=nlight, run=block[0] if block else None, event=ev))
 
     # Impl layer: the move automaton; on rejection the flat property spec decides between violation and drift
-    ok, n, r = tlc.validate_trace("TraceNM", "Trace_NM.cfg", full, timeout=1500, xmx="6g")
-    ctx.add_tlc(r, "trace_nm_automaton")
-    if ok:
+    if not full:
+        ok = True           # (only after an early end of the harness: no callback trace was completed)
+    else:
+        ok, n, r = tlc.validate_trace("TraceNM", "Trace_NM.cfg", full, timeout=1500, xmx="6g")
+        ctx.add_tlc(r, "trace_nm_automaton")
+    if not full:
+        pass
+    elif ok:
         if r.distinct != len(full) + 1:
             ctx.note("automaton accepted with %d states for %d events (move inference not unique)" % (r.distinct, len(full)))
     else:
@@ -578,8 +625,11 @@ def nm_check(ctx, rd, nfull, nlight):
             bad = full[n] if n < len(full) else None
             ctx.spec_drift("Nelder-Mead: the Gao-Han move automaton (TraceNM.tla) no longer matches the objective-callback trace at event %d %s; "
                            "the result contract (TraceNMProp.tla) accepts every run" % (n, bad))
-    trace.check_trace(ctx, "TraceNMProp", "Trace_NMProp.cfg", None, light, on_reject, drop="block", max_rounds=8, label="trace_nm_prop_light")
+    if light:
+        trace.check_trace(ctx, "TraceNMProp", "Trace_NMProp.cfg", None, light, on_reject, drop="block", max_rounds=8, label="trace_nm_prop_light")
     ctx.traces(len(blocks))
+    if died:
+        return          # (the completed minimisations were judged above; binding self-tests and statistics need a complete recording)
     # binding self-tests for the new fields: a flat class whose announced spread is not flat, a judged distance beyond the bound
     flatb = next((b for b in blocks if b[0]["sc"] == 2 and not b[0]["full"]), None)
     if flatb:
@@ -648,11 +698,18 @@ def nm_family(ctx, rd):
         if h.san:
             ctx.violation("NM:%s" % h.san, "sanitizer report in NelderMeadSimplex (integer family):\n%s" % h.err[:1500], dict(kind="nm"))
         else:
-            raise InfraError("c19_nm family failed rc=%s: %s" % (h.rc, h.err[-800:]))
+            ev_ = hrun.read_ndjson(out)
+            run_ = next((e for e in reversed(ev_) if e.get("e") == "Reset"), None)
+            _died(ctx, h, "NM", "c19_nm family", dict(kind="nm", run=run_), ([run_] if run_ else []))
     events = hrun.read_ndjson(out)
+    died = h.rc != 0
     blocks = tlc.split_blocks(events)
+    if died and blocks and blocks[-1][-1].get("e") != "Quad":
+        blocks = blocks[:-1]
     if len(blocks) != len(rg.emits):
-        raise InfraError("c19_nm family: %d runs for %d starts" % (len(blocks), len(rg.emits)))
+        _vac(ctx, died, "c19_nm family: %d runs for %d starts" % (len(blocks), len(rg.emits)))
+        if not blocks:
+            return
     for b in blocks:
         ctx.case(("nm-family", tuple(b[0]["q"]), tuple(b[0]["x0"]), tuple(b[0]["s"])), True)
         ctx.cls("K8:start=integer-family(TLC-enumerated)")
@@ -667,6 +724,8 @@ def nm_family(ctx, rd):
         if grp:
             trace.check_trace(ctx, "TraceNMProp", "Trace_NMProp.cfg", None, grp, on_reject, drop="block", max_rounds=2, label="trace_nm_prop_family_%s" % lab, timeout=1500, xmx="6g")
     ctx.traces(len(blocks))
+    if died:
+        return
     stalls = [b for b in blocks if b[-1]["conv"] == 0]
     ctx.steps["nm_family"] = dict(starts=len(blocks), flat=sum(b[0]["mflat"] for b in blocks), exhausted_iteration_limit=len(stalls),
                                   worst_dist_1e9=max(b[-1]["dist"] for b in blocks))
@@ -692,6 +751,7 @@ def run(ctx, parts=("spline", "ledger", "sessions", "nm")):
     exc = build.build_harness("c19c", ["c19_cls.c"], lib)
     rd = tlc.rundir()
     lctx = _Locked(ctx)
+    ctx._deferred = Deferred(lctx)
 
     def part_spline():
         recs = spline_model(lctx)
@@ -725,6 +785,7 @@ def run(ctx, parts=("spline", "ledger", "sessions", "nm")):
                 raise e
         if errs:
             raise errs[0]
+        ctx._deferred.settle()
         ctx.cov["rule"] = ("replay: every integer knot set TLC enumerated (3..5 knots) x 9 scale decades, keyed (knot count, decade, knot set), non-trivial = decade # 1e0 or "
                            "irregular gaps; ledger: seeded random knot sets keyed (knot count 3..40, spacing decade, uniform/irregular class); sessions: class-scheduled fits keyed "
                            "(knot count, history class of the table, mesh class, ordinate magnitude, ordinate offset, abscissa offset, collinear), interpolate() calls keyed (knot count, "
